@@ -524,6 +524,7 @@ pub fn ops() -> Vec<Op> {
         op("default reader TST-5", |_| d(TimeZone::from_posix_tz("TST-5").map_err(|e| e.to_string()))),
         op("default reader rule", |_| d(TimeZone::from_posix_tz("EST5EDT,M3.2.0,M11.1.0").map_err(|e| e.to_string()))),
         op("default reader missing", |_| d(TimeZone::from_posix_tz(":Nope3/Nothing").map_err(|e| e.to_string()))),
+        op("TimeZone::local", |_| d(TimeZone::local().map_err(|e| e.to_string()))),
         op("failing reader rule", |_| d(TimeZoneSettings::new(&["/zoneinfo"], |_| { probe_mid_operation(); Err("no file system".into()) }).parse_posix_tz("TST-5").map_err(|e| e.to_string()))),
         op("denied reader rule", |_| d(TimeZoneSettings::new(&["/zoneinfo", "/other"], |_| { probe_mid_operation(); Err(Box::new(std::io::Error::from(std::io::ErrorKind::PermissionDenied))) }).parse_posix_tz("EST5EDT,M3.2.0,M11.1.0").map_err(|e| e.to_string()))),
         // ambient process state the subject must not depend on
@@ -800,7 +801,7 @@ pub fn run(args: &Args) -> i32 {
     }
     rec.add(steps, histories - n as u64);
     rec.add_model(histories, steps, steps);
-    rec.set_rule("explored object = tree of operation histories (no deduplication possible: the subject exposes no state): every sequence of <= 3 steps over a 49-letter alphabet = 41 operations chosen to collide + 8 changes of ambient process state (current directory with decoy files, errno, TZ/TZDIR set at run time) + all length-4 histories over a 23-letter subset (thorough: + length 5 over 14 letters); after every operation: result digest == run-alone digest (fresh process, 6 environments: TZ/TZDIR, decoy current directory, initial errno), no changed byte in .data/.bss/TLS of the executable, no getenv call, no file opened through a relative path, no write to the standard streams, raw bytes of shared values unchanged; the injected readers repeat the memory comparison in the middle of the operation. non-trivial = histories of length >= 2");
+    rec.set_rule("explored object = tree of operation histories (no deduplication possible: the subject exposes no state): every sequence of <= 3 steps over a 50-letter alphabet = 42 operations chosen to collide + 8 changes of ambient process state (current directory with decoy files, errno, TZ/TZDIR set at run time) + all length-4 histories over a 23-letter subset (thorough: + length 5 over 14 letters); after every operation: result digest == run-alone digest (fresh process, 6 environments: TZ/TZDIR, decoy current directory, initial errno), no changed byte in .data/.bss/TLS of the executable, no getenv call, no file opened through a relative path, no write to the standard streams, raw bytes of shared values unchanged; the injected readers repeat the memory comparison in the middle of the operation. non-trivial = histories of length >= 2");
     rec.set_exhaustive(true);
     rec.outcome(&format!("{} distinct results", distinct_results.len()));
     rec.outcome("run-alone");
